@@ -53,6 +53,12 @@ func extras(prop string) (map[string]any, []string) {
 			"the single-shot replay uses the implementation under test on a fresh instance (it decides chunk independence, clone and reset behaviour); the golang.org/x/crypto primitives are the independent reference before any reseed",
 			"trusted: crypto/sha256, golang.org/x/crypto/{blake2b,blake2s,sha3}, math/big",
 		}
+	case "C18":
+		return nil, []string{
+			"decisive scope: interoperability of heterogeneous clusters and identical transcripts across build configurations; comparison with an arbitrary-precision reference model is not part of this technique",
+			"scalars are injected with SetInt64 and products thereof and travel as canonical encodings (BLS12-381) or by value (Ed25519 implementations declare different scalar byte orders)",
+			"cross-build: transcripts exclude kyber's own log lines, some of which are emitted while ranging over a Go map",
+		}
 	case "C10":
 		return nil, []string{
 			"sampling within n<=6, t in 2..n, <=3000 events per run; both VSS variants on Ed25519",
